@@ -135,9 +135,39 @@ func (ex *Exec) visibleOp(st *State, what string, racy bool) {
 		return
 	}
 	if st.Sched && (!st.RacyOnly || racy) && !g.NoYield && st.Preempt < st.MaxPreempt {
+		var others []*G
 		for _, o := range st.Gs {
 			if o.ID != g.ID && ex.runnable(o) && !o.Slept {
+				others = append(others, o)
+			}
+		}
+		if len(others) > 0 {
+			// the scheduling decision is a symbolic variable ranging over the enabled goroutines; the
+			// pre-emption budget is a constraint on the sum of decisions that differ from the running one
+			C := ex.C
+			st.SchedVars++
+			v := ex.nondet(st, fmt.Sprintf("sched_%d", st.SchedVars), smt.BV(8))
+			dom := C.Eq(v, C.BVConst(uint64(g.ID), 8))
+			for _, o := range others {
+				dom = C.Or(dom, C.Eq(v, C.BVConst(uint64(o.ID), 8)))
+			}
+			if st.PreemptTerm == nil {
+				st.PreemptTerm = C.BVConst(0, 8)
+			}
+			cnt := C.BVBin(smt.OAdd, st.PreemptTerm, C.Ite(C.Eq(v, C.BVConst(uint64(g.ID), 8)), C.BVConst(0, 8), C.BVConst(1, 8)))
+			budget := C.BVCmp(smt.OUle, cnt, C.BVConst(uint64(st.MaxPreempt), 8))
+			base := append(append([]*smt.Term(nil), st.PC...), dom, budget)
+			for _, o := range others {
+				pick := C.Eq(v, C.BVConst(uint64(o.ID), 8))
+				if r := ex.S.Check(base, pick); r == smt.Unsat {
+					continue
+				} else if r == smt.Sat {
+					ex.S.Done()
+				}
 				f := st.fork()
+				f.PC = append(f.PC, dom, budget, pick)
+				f.PreemptTerm = cnt
+				f.Model = nil
 				f.Gs[g.ID].NoYield = true
 				f.Cur = o.ID
 				f.Preempt++
@@ -145,6 +175,16 @@ func (ex *Exec) visibleOp(st *State, what string, racy bool) {
 				f.Events = append(f.Events, SchedEvent{G: g.ID, Site: ex.curSite, Kind: "preempt", What: what})
 				ex.push(f)
 				ex.Forks++
+			}
+			st.PC = append(st.PC, dom, budget, C.Eq(v, C.BVConst(uint64(g.ID), 8)))
+			st.PreemptTerm = cnt
+			if st.Model != nil {
+				m := make(map[string]uint64, len(st.Model)+1)
+				for k, x := range st.Model {
+					m[k] = x
+				}
+				m[v.Name] = uint64(g.ID)
+				st.Model = m
 			}
 		}
 	}
